@@ -29,6 +29,7 @@ Some theory - partial schemas form a monoid with:
 
 from __future__ import annotations
 
+from copy import copy
 from functools import reduce
 from typing import (
     Any,
@@ -412,6 +413,11 @@ class PartialFactory:
             args = t.get_args(orig_type)
             th = args[0]
             fi = next(filter(lambda ann: isinstance(ann, FieldInfo), args[1:]), None)
+            if fi is not None and (fi.default_factory is not None):
+                # partial fields have no defaults (only what was provided counts)
+                fi = copy(fi)
+                fi.default_factory = None
+                fi.default = None
 
         pth = cls._partial_type(th)  # map the (unwrapped) type to optional
         return (pth, fi)
